@@ -164,6 +164,23 @@ CLAIMED = {
                      "correspondence + trace oracle",
         "design_ref": "DESIGN.md section 7 (C10)",
     },
+    "C13": {
+        "text": "Theorems: C13_truncation (every conformant file of any of the 14 types, cut at ANY length from the end of the "
+                "header to one byte before its end, read sequentially: exactly the records wholly inside the retained bytes are "
+                "returned, each equal to the original, in order, then the cut record is Io(UnexpectedEof), then the iteration "
+                "ends), C13_truncated_header, C13_inside_is_prefix, C13_record_cut (L2), C13_fault / C13_fault_open (a source "
+                "failing its k-th operation, one-shot or persistent: a reading program that reaches it returns the injected "
+                "error from the call in progress, one that finishes before is unaffected - for every simple program, i.e. the "
+                "record, header and index readers), C13_short_reads (std's read_exact loop over any schedule of short reads "
+                "returns exactly what an all-at-once source returns). Tie: every truncation length of .shp and .shx, every "
+                "fault index k of a full traversal, short-read schedules; model and code must agree on every item.",
+        "note": COMMON_NOTE + "read_exact / Interrupted handling of std is modelled (read_exact_loop). The with-index route under "
+                "truncation and seeks under faults are covered by the correspondence (exhaustive in cut length and k) and the "
+                "oracle; the theorems are stated for the sequential route and for the record/header/index readers.",
+        "technique": "Coq proof (truncation and fault-injection lemmas proved once for all simple reading programs by induction "
+                     "on the program tree; induction over records) + exhaustive truncation-length / fault-index correspondence",
+        "design_ref": "DESIGN.md section 7 (C13)",
+    },
     "C14": {
         "text": "Theorem C14_index_governs: for any .shp bytes with a valid header and any index such that each entry's offset "
                 "points at the bytes of a conformant record (Indexed: arbitrary filler of any length and content before, between "
